@@ -4,7 +4,7 @@ import Posmint.Lemmas.CoinText
 # C20 — Encodings round-trip, sign bytes are canonical, malformed input is refused
 
 The part of C20 decided in Lean: amino's varints and length-delimited fields, the text form of
-`Int`, the `Coin` / `Coins` structs, and the store-key codecs of x/pos (power-index key,
+`Int`, the `Coin` / `Coins` structs, the flat message types, and the store-key codecs of x/pos (power-index key,
 unstaking-queue time key, inclusive end bytes, address hex).  `IsBytes b` says every element of a
 byte string is below 256.
 -/
@@ -209,5 +209,82 @@ theorem parseCoinText_spaces (d : Bytes) (n : Nat) (hd : denomOK d = true) (hn :
 example : parseCoinText [48, 49, 55, 117, 112, 111, 107, 116] = some ([117, 112, 111, 107, 116], 15) ∧
     parseCoinText [48, 56, 117, 112, 111, 107, 116] = none := by
   decide
+
+/-! ## flat messages (every field length-delimited): MsgSend, MsgBeginUnstake, MsgUnjail, MsgDAOTransfer, MsgChangeParam -/
+
+/-- the generic field encoder has a left inverse: up to fifteen fields, each below 2^64 bytes -/
+theorem fields_roundtrip (num : Nat) (fs : List Bytes) (h : num + fs.length ≤ 16) (hl : ∀ b ∈ fs, b.length < 2 ^ 64) :
+    decodeFields num fs.length (encodeFields num fs) = some fs :=
+  decodeFields_encodeFields num fs h hl
+
+/-- hence different field contents never share an encoding (absent and empty being the same content) -/
+theorem encodeFields_injective (num : Nat) (fs gs : List Bytes) (hlen : fs.length = gs.length) (h : num + fs.length ≤ 16)
+    (hf : ∀ b ∈ fs, b.length < 2 ^ 64) (hg : ∀ b ∈ gs, b.length < 2 ^ 64)
+    (e : encodeFields num fs = encodeFields num gs) : fs = gs := by
+  have h1 := decodeFields_encodeFields num fs h hf
+  have h2 := decodeFields_encodeFields num gs (by omega) hg
+  rw [e, hlen, h2] at h1
+  exact (Option.some.inj h1).symm
+
+/-- a registered flat message type: two values with the same encoding have the same fields -/
+theorem flatMsg_injective (pre : Bytes) (fs gs : List Bytes) (hlen : fs.length = gs.length) (h : fs.length ≤ 15)
+    (hf : ∀ b ∈ fs, b.length < 2 ^ 64) (hg : ∀ b ∈ gs, b.length < 2 ^ 64)
+    (e : encodeFlatMsg pre fs = encodeFlatMsg pre gs) : fs = gs := by
+  unfold encodeFlatMsg at e
+  exact encodeFields_injective 1 fs gs hlen (by omega) hf hg (List.append_cancel_left e)
+
+/-- `MsgSend` (its own encoder in the model, compared byte for byte) is the flat message over source, destination and
+the amount's text -/
+theorem msgSend_is_flat (pre : Bytes) (m : MsgSend) :
+    encodeMsgSend pre m = encodeFlatMsg pre [m.src, m.dst, intText m.amount] := by
+  have e : intText m.amount ≠ [] := by
+    unfold intText; split
+    · simp
+    · exact natDigits_ne_nil _
+  have e' : (intText m.amount).isEmpty = false := by
+    cases h : intText m.amount with
+    | nil => exact absurd h e
+    | cons _ _ => rfl
+  simp [encodeMsgSend, encodeFlatMsg, encodeFields, e', List.append_assoc]
+
+/-- two transfers with the same binary encoding are the same transfer -/
+theorem msgSend_injective (pre : Bytes) (m1 m2 : MsgSend)
+    (h1 : m1.amount.natAbs < 2 ^ 255 ∧ m1.src.length < 2 ^ 64 ∧ m1.dst.length < 2 ^ 64)
+    (h2 : m2.amount.natAbs < 2 ^ 255 ∧ m2.src.length < 2 ^ 64 ∧ m2.dst.length < 2 ^ 64)
+    (e : encodeMsgSend pre m1 = encodeMsgSend pre m2) : m1 = m2 := by
+  rw [msgSend_is_flat, msgSend_is_flat] at e
+  have b1 := intText_length_le m1.amount h1.1
+  have b2 := intText_length_le m2.amount h2.1
+  have e64 : (2:Nat) ^ 64 = 18446744073709551616 := by decide
+  have := flatMsg_injective pre [m1.src, m1.dst, intText m1.amount] [m2.src, m2.dst, intText m2.amount] rfl (by simp) (by
+      intro b hb; simp only [List.mem_cons, List.not_mem_nil, or_false] at hb
+      rcases hb with rfl | rfl | rfl
+      · exact h1.2.1
+      · exact h1.2.2
+      · omega) (by
+      intro b hb; simp only [List.mem_cons, List.not_mem_nil, or_false] at hb
+      rcases hb with rfl | rfl | rfl
+      · exact h2.2.1
+      · exact h2.2.2
+      · omega) e
+  simp only [List.cons.injEq, and_true] at this
+  obtain ⟨e1, e2, e3⟩ := this
+  have p1 := parseIntText_intText m1.amount h1.1
+  have p2 := parseIntText_intText m2.amount h2.1
+  rw [e3, p2] at p1
+  obtain ⟨s1, d1, a1⟩ := m1
+  obtain ⟨s2, d2, a2⟩ := m2
+  simp only at e1 e2 p1
+  subst e1 e2
+  have := Option.some.inj p1
+  subst this
+  rfl
+
+/-- non-vacuity: an empty destination is omitted, and the three fields come back -/
+example : decodeFields 1 3 (encodeFields 1 [[7, 7], [], [52, 50]]) = some [[7, 7], [], [52, 50]] :=
+  fields_roundtrip 1 [[7, 7], [], [52, 50]] (by decide) (by
+    intro b hb
+    simp only [List.mem_cons, List.not_mem_nil, or_false] at hb
+    rcases hb with rfl | rfl | rfl <;> simp)
 
 end Posmint.Props.C20
